@@ -76,10 +76,10 @@ Definition huge : Q := inject_Z (2 ^ 1024).
 Definition cfinite (c : cplx) : bool := negb (Qle_bool huge (Qabs (re c))) && negb (Qle_bool huge (Qabs (im c))).
 Definition chk (c : cplx) : res val := if cfinite c then Ok (VS c) else Err EOverflow.
 
-(* size guard: the model only raises to powers whose result has at most ~40000 bits *)
+(* size guard: the model only raises to powers whose result has at most ~4096 bits *)
 Definition qbits (q : Q) : Z := (Z.max (Z.log2 (Z.abs (Qnum q))) (Z.log2 (Zpos (Qden q))) + 1)%Z.
 Definition cbits (c : cplx) : Z := Z.max (qbits (re c)) (qbits (im c)).
-Definition pow_in_model (x : cplx) (n : Z) : bool := (Z.abs n * cbits x <=? 40000)%Z.
+Definition pow_in_model (x : cplx) (n : Z) : bool := (Z.abs n * cbits x <=? 4096)%Z.
 
 (* an integer-valued real exponent *)
 Definition as_int (c : cplx) : option Z :=
